@@ -207,7 +207,17 @@ func VerifMisuseActive() {
 	verifAssert(err == nil, "begin")
 	before := snapOf(s.f)
 	pg, _ := tx.Page(id0)
-	switch verifChoose(9) {
+	switch verifChoose(10) {
+	case 9: // a page allocated and freed again in this transaction
+		ps, ae := tx.AllocN(2)
+		verifAssert(ae == nil && len(ps) == 2, "alloc")
+		k := verifChoose(2) // the first (not at the end of the file) or the last one
+		fid := ps[k].ID()
+		verifAssert(ps[k].Free() == nil, "freeing a fresh page without contents succeeds")
+		_, e := tx.Page(fid)
+		verifAssert(e != nil && (kindIn(e, InvalidOp) || kindIn(e, InvalidPageID)), "Page of a page freed in this transaction: InvalidOp (or InvalidPageID once the file end moved below it)")
+		e2 := ps[k].SetBytes(verifBuf(1, 1, 1))
+		verifAssert(e2 != nil && kindIn(e2, InvalidOp), "writing an already freed page: InvalidOp")
 	case 0: // out of range ids
 		id := PageID(verifU64("id"))
 		verifAssume(id < 2 || id >= s.f.allocator.data.endMarker)
